@@ -321,7 +321,11 @@ def gen_storage(rng, g, cfg, name, nodes, prices):
         a['no_simult_in_out'] = True
     if rng.random() < cfg.get('p_max_store', 0.0):
         a['max_store_duration'] = float(rng.randint(1, 3))
+    if rng.random() < cfg.get('p_blocks', 0.0) and g['freq'] in ('h', '30min'):
+        a['block_size'] = rng.choice(['2h', '3h', '4h'])
     common(rng, g, cfg, a)
+    if 'block_size' in a:
+        a.pop('freq', None)
     return a
 
 
